@@ -19,7 +19,8 @@ from .. import terms as T
 from .. import iters as iters_mod
 from ..folds import find_ariths, get_at, step_increment, is_increment, is_unchanged, havoc_subst
 from ..ivl import IvlModel
-from ..meanci import ConfModel, KINDS, check_mean_interval, F0, F1, F2, unwrap_ok, SubstPath
+from ..sqrtdom import check_paths as check_sqrt_domain
+from ..meanci import ConfModel, KINDS, check_mean_interval, F0, F1, F2, unwrap_ok, SubstPath, V, V_RANGE, s2_from_variance
 from ..nf import NotReal
 from ..realmode import Domain, prune, quantile_hook
 from ..statsmodel import StatsModel, by_ref, ZERO
@@ -276,10 +277,12 @@ def run_cfg(chk, facts, cfg):
             chk.ob(key, 'T2-lockstep', 'Paired::extend', None, 'undecided: %s' % e, where)
 
     # Paired::ci_mean / sample_* delegate; Paired::ci = fold + ci_mean
-    mean, var, fn_ = arith_refs(S1, S2, N)
+    S2V = s2_from_variance(S1, V, N)
+    pstate_any, pstate = pstate, sm.wrapper_state(padt, sm.arith_state(S1, S2V, N))
+    mean, var, fn_ = arith_refs(S1, S2V, N)
     se = T.op('div', T.op('sqrt', var), T.op('sqrt', fn_))
     nu = T.op('sub', fn_, F1)
-    dom = Domain(nf, {'n': (Fraction(2), None, False, True), 'L': (Fraction(0), Fraction(1), True, True)})
+    dom = Domain(nf, {'n': (Fraction(2), None, False, True), 'L': (Fraction(0), Fraction(1), True, True), 'v': V_RANGE})
     dom.hooks.append(quantile_hook())
     f = facts.inherent(pp, 'ci_mean')
     if chk.anchor('Paired::ci_mean' + sfx, f):
@@ -289,6 +292,7 @@ def run_cfg(chk, facts, cfg):
             try:
                 sx, paths = summ(f, ['self', 'confidence'], [by_ref(pstate), cm.value(kind, L)])
                 chk.saw(facts, f, paths=len(paths))
+                check_sqrt_domain(chk, key, where, paths, 'Paired::ci_mean(%s)' % kname, cnt)
                 check_mean_interval(chk, PID, key, where, sm, im, cm, paths, kind, L, mean, se, nu, dom,
                                     'Paired::ci_mean(%s) is the arithmetic-mean interval of the accumulated differences' % kname)
             except (Unsupported, NotReal) as e:
@@ -328,7 +332,7 @@ def run_cfg(chk, facts, cfg):
                 chk.ob(key + ':fold', 'T2-lockstep', 'Paired::ci folds a_i - b_i from the empty state; mismatching lengths are rejected', not probs, '; '.join(probs[:3]), where)
                 if probs:
                     continue
-                sub = havoc_subst(sm, hav, S1, S2, N)
+                sub = havoc_subst(sm, hav, S1, S2V, N)
                 check_mean_interval(chk, PID, key, where, sm, im, cm, rest, kind, L, mean, se, nu, dom,
                                     'Paired::ci(%s) == Arithmetic::ci_mean of the differences' % kname, subst=sub)
             except (Unsupported, NotReal) as e:
@@ -536,6 +540,8 @@ def run_cfg(chk, facts, cfg):
                 try:
                     sx, paths = summ(f, ['self', 'confidence'], [by_ref(st_mv), cm.value(kind, L)])
                     chk.saw(facts, f, paths=len(paths))
+                    if region == 'va>0':
+                        check_sqrt_domain(chk, '%s:Unpaired::ci_mean:%s%s' % (PID, kname, sfx), where, paths, 'Unpaired::ci_mean(%s)' % kname, cnt)
                     okk = check_mean_interval(chk, PID, key, where, sm, im, cm, paths, kind, L, d_ref, se_ref, nu_ref, dmu,
                                               'Unpaired::ci_mean(%s) is (ma - mb) -/+ c*sqrt(va/na + vb/nb) with the documented effective dof (%s)' % (kname, region),
                                               stat_atoms=[(Ma, 'ma'), (Va, 'va'), (Mb, 'mb'), (Vb, 'vb')])
